@@ -49,11 +49,11 @@ var denyPool = [][]string{
 
 // names each deny pool entry refuses / lets through
 var deniedNames = map[string][]string{
-	`denied\.test`:           {"denied.test", "sub.denied.test"},
-	`.*\.blocked\.example`:   {"a.blocked.example", "x.y.blocked.example"},
-	`^bad-[a-z]+\.test$`:     {"bad-host.test"},
-	`evil\.example`:          {"evil.example"},
-	`(?i)mixed\.example`:     {"mixed.example"},
+	`denied\.test`:         {"denied.test", "sub.denied.test"},
+	`.*\.blocked\.example`: {"a.blocked.example", "x.y.blocked.example"},
+	`^bad-[a-z]+\.test$`:   {"bad-host.test"},
+	`evil\.example`:        {"evil.example"},
+	`(?i)mixed\.example`:   {"mixed.example"},
 }
 
 // refDenied: reference evaluation of a deny list: a host is denied iff some include rule
@@ -338,6 +338,24 @@ func (c *conf) snap() ledger {
 	return l
 }
 
+// settle waits until every connection the proxy has dialled so far has also been counted by the
+// peer that accepted it (an accept is counted a moment after connect() returned to the proxy), so
+// that a late count of an EARLIER connection is not attributed to the next request.
+func (c *conf) settle() {
+	for t := time.Now(); time.Since(t) < time.Second; time.Sleep(500 * time.Microsecond) {
+		var ok int64
+		for _, d := range c.p.DialLog() {
+			if d.Err == "" {
+				ok++
+			}
+		}
+		l := c.snap()
+		if l.oa+l.ta+l.ua >= ok {
+			return
+		}
+	}
+}
+
 // decision: which controls refuse this request.
 func (c *conf) failing(host string, cr credCase) (codes []int, unsure bool) {
 	if strings.HasPrefix(c.timeframe, "excludes") {
@@ -523,7 +541,7 @@ func (c *conf) sig() string {
 }
 
 func runConf(run *lib.Run, r *lib.RNG, c *conf, base, nReq int) {
-	var st *lib.Stream  // current client connection (plain)
+	var st *lib.Stream    // current client connection (plain)
 	var inner *lib.Stream // established MITM session, if any
 	pos := 0
 	closeConn := func() {
@@ -584,6 +602,7 @@ func runConf(run *lib.Run, r *lib.RNG, c *conf, base, nReq int) {
 		if useInner {
 			conn = inner
 		}
+		c.settle()
 		before := c.snap()
 		conn.C.Write(raw)
 		res, pst, err := conn.ReadResponse(q.method, 15*time.Second)
